@@ -335,3 +335,30 @@ Proof.
   intros Hwf Hc Hn. rewrite float_model_eq_exact_model by exact Hc.
   exact (model_meets_spec_full exact_atok exact_atok_exact ops Hwf Hn).
 Qed.
+
+(* ================= (3) the fair share is the size limit ================= *)
+(* "Pushed out by the size limit" in the oracle means: the block holds at least
+   fair_share maxSize k entries.  fair_share is characterised without its formula: it is
+   the LARGEST even count p <= 16384 such that k blocks of p entries fit the maximum
+   size (12 + k * (8 + 2p) <= maxSize); two more entries per stream would not fit. *)
+Theorem fair_share_maximal maxSize k : 0 < k -> 12 + 8 * k <= maxSize ->
+  let p := fair_share maxSize k in
+  0 <= p <= 16384 /\ p mod 2 = 0 /\ 12 + k * (8 + 2 * p) <= maxSize /\
+  (forall p', p' mod 2 = 0 -> p < p' <= 16384 -> maxSize < 12 + k * (8 + 2 * p')).
+Proof.
+  intros Hk Hm. cbv zeta.
+  destruct (fair_share_props maxSize k Hk) as (H1 & H2 & H3).
+  split; [lia|]. split; [exact H2|]. split; [exact (H3 Hm)|].
+  intros p' He Hp.
+  assert (Hp2 : fair_share maxSize k + 2 <= p') by lia.
+  revert Hp Hp2 H1. unfold fair_share. cbv zeta.
+  set (t := Z.max ((maxSize - 12 - 8 * k) / 2) 0).
+  assert (Ht : 2 * t <= maxSize - 12 - 8 * k < 2 * t + 2) by (unfold t; lia).
+  assert (Hq : k * (t / k) <= t < k * (t / k) + k).
+  { pose proof (Z.mul_div_le t k Hk). pose proof (Z.mul_succ_div_gt t k Hk). lia. }
+  set (q := t / k) in *.
+  intros Hp Hp2 H1.
+  assert (Hq1 : q + 1 <= p') by lia.
+  assert (k * (q + 1) <= k * p') by (apply Z.mul_le_mono_nonneg_l; lia).
+  lia.
+Qed.
